@@ -40,7 +40,7 @@ def gen(rng):
     lmin = rng.choice([1, 1, 2, 2, 3])
     lmin = min(lmin, cap - 1)
     lmax = min(cap, lmin + rng.choice([0, 1, 1, 2, 2, 3, 4]))
-    kind, a, b = hooks.gen_box(rng, d, ["unit", "unit", "shifted", "negative", "aniso", "tiny", "huge", "dyadic", "integer"])
+    kind, a, b = hooks.gen_box(rng, d, ["unit", "unit", "shifted", "negative", "aniso", "tiny", "huge", "dyadic", "integer", "mixed_scales"])
     if rng.random() < 0.12:
         kind, a, b = hooks.gen_box(rng, d, ["integer"])
         if d >= 2 and rng.random() < 0.6:
